@@ -11,7 +11,7 @@ import re
 import shutil
 import time
 
-from vcommon import Infra, build_harness, copy_specs, monitor_report, run, scratch_dir, tlc, tlc_errors, tlc_stats, tlc_violations
+from vcommon import Infra, drive, build_harness, copy_specs, monitor_report, run, scratch_dir, tlc, tlc_errors, tlc_stats, tlc_violations
 
 PROPS = ["C25"]
 DESIGN = ["Builder_ctor.cfg", "Builder_chain.cfg"]
@@ -52,9 +52,7 @@ def compute(tier, seed):
                 design["violations"].append({"cfg": cfg, "violated": ["expected counterexample of %s not found" % inv]})
         bbin = build_harness("builder")
         outdir = os.path.join(work, "run")
-        rc, txt, hsecs = run([bbin, "-out", outdir, "-seed", str(seed), "-tier", tier], timeout=3000, check=False)
-        if rc != 0:
-            raise Infra("builder harness failed: " + txt[-2000:])
+        txt, hsecs = drive([bbin, "-out", outdir, "-seed", str(seed), "-tier", tier], work, "builder", timeout=3000)
         rep, stats = monitor(work, os.path.join(outdir, "obs.ndjson"))
         obs = {}
         for line in open(os.path.join(outdir, "obs.ndjson")):
